@@ -19,6 +19,7 @@ import (
 	"context"
 	"fmt"
 	"strings"
+	"sync"
 	"time"
 
 	. "verifharness/lib"
@@ -191,9 +192,21 @@ func run(c *Ctx) {
 	im := NewImpl("C10", c.Seed, c.Tier)
 	im.Rule = "per scenario (converged chains/trees/ring of 2-6 real nodes; injected tables: 2- and 3-node loops through a phantom, loop hiding a real node, route over a missing connection, forwarder without the name hash, missing and looping return paths) every probed (source, target) pair is sent to with budgets {0,1,d-1,d,d+1,maxHops,30,255} (thorough: 0..255) and target services svc (bound), none (unbound), from service src or unreach; Ping with the same budgets and Traceroute per pair; non-trivial = the packet leaves the source node or expires there; distinct by (scenario, source, target, services, budget)"
 	cf := &CaseFile{Dir: c.Out, Prop: "C10", Imports: []string{"Model.Forward"}, CaseType: "fwd_case", CheckFn: "fwd_check", PerShard: 8}
+	slow := make(chan slowResult, 1)
+	go func() { slow <- slowConsumers() }() // beside the scenarios: it mostly waits
 	for _, s := range scenarios(c) {
 		runScenario(c, im, cf, s)
 	}
+	sr := <-slow
+	for _, v := range sr.violations {
+		im.Violate(v, "expiry-not-reported:slow-consumer", sr.detail)
+	}
+	im.Histogram["slow-consumer:expiries-sent"] += sr.sent
+	im.Histogram["slow-consumer:expiries-reported-once"] += sr.reported
+	for i := 0; i < sr.sent; i++ {
+		im.Count(fmt.Sprintf("slow consumer expiry %d", i), true)
+	}
+	im.Extra["slow-consumer"] = sr.detail
 	observeNonUTF8Service(im)
 	Must(cf.Write())
 	Must(im.Write(c.Out))
@@ -680,4 +693,139 @@ func observeNonUTF8Service(im *Impl) {
 		_ = pc.Close()
 	}
 	im.Extra["observation:expiry-notice-by-sending-service-name"] = res
+}
+
+// ---------- the sender is told, however slowly it listens ----------
+
+type slowResult struct {
+	violations     []string
+	sent, reported int
+	detail         map[string]interface{}
+}
+
+// slowConsumers: two sockets on one node of a chain n0 - n1 - n2 send datagrams that expire (budget
+// 0: at n0 itself; budget d-1 = 1: at n1) and start to read their unreachable notifications only
+// 3.5 s later.  C10: the node where the budget ran out tells the sender — every expiry must reach
+// its socket exactly once, with the right reporting node, whatever the pace of the consumer.
+func slowConsumers() slowResult {
+	res := slowResult{detail: map[string]interface{}{}}
+	consts := FastConsts()
+	consts.RouteUpdate, consts.ServiceAd = 10*time.Second, time.Hour
+	m := NewMesh(consts)
+	defer m.Shutdown()
+	ids := []string{"s0", "s1", "s2"}
+	for _, id := range ids {
+		m.AddNode(id)
+	}
+	if _, err := m.Connect("s0", "s1", 1); err != nil {
+		res.detail["inconclusive"] = err.Error()
+		return res
+	}
+	if _, err := m.Connect("s1", "s2", 1); err != nil {
+		res.detail["inconclusive"] = err.Error()
+		return res
+	}
+	if !m.WaitRoutes(map[string][]string{"s0": {"s1", "s2"}, "s2": {"s0", "s1"}, "s1": {"s0", "s2"}}, 60*time.Second) {
+		res.detail["inconclusive"] = "no convergence"
+		return res
+	}
+	time.Sleep(400 * time.Millisecond)
+	if _, err := m.Nodes["s2"].ListenPacket("svc"); err != nil {
+		res.detail["inconclusive"] = err.Error()
+		return res
+	}
+	type sock struct {
+		name string
+		pc   netceptor.PacketConner
+		ch   chan netceptor.UnreachableNotification
+		done chan struct{}
+	}
+	var socks []*sock
+	for _, name := range []string{"slowA", "slowB"} {
+		pc, err := m.Nodes["s0"].ListenPacket(name)
+		if err != nil {
+			res.detail["inconclusive"] = err.Error()
+			return res
+		}
+		sk := &sock{name: name, pc: pc, done: make(chan struct{})}
+		sk.ch = pc.SubscribeUnreachable(sk.done)
+		socks = append(socks, sk)
+	}
+	budgets := []byte{0, 1, 0, 1} // expires at s0, at s1, ...
+	want := map[string]int{}      // socket|reporting node -> count
+	for _, sk := range socks {
+		for i, h := range budgets {
+			res.sent++
+			if h == 0 {
+				want[sk.name+"|s0"]++
+			} else {
+				want[sk.name+"|s1"]++
+			}
+			// each send in its own goroutine: with an unread notice pending, WriteTo of a datagram that
+			// expires on the node itself waits for the consumer
+			go func(sk *sock, i int, h byte) {
+				_ = m.Nodes["s0"].SendMessageWithHopsToLive(sk.name, "s2", "svc", []byte{byte(i)}, h)
+			}(sk, i, h)
+			time.Sleep(30 * time.Millisecond)
+		}
+	}
+	time.Sleep(3500 * time.Millisecond) // the consumers come round to their notifications only now
+	got := map[string]int{}
+	var mu sync.Mutex
+	var wg sync.WaitGroup
+	for _, sk := range socks {
+		wg.Add(1)
+		go func(sk *sock) {
+			defer wg.Done()
+			idle := time.NewTimer(6 * time.Second)
+			for n := 0; n < 2*len(budgets); {
+				select {
+				case x, ok := <-sk.ch:
+					if !ok {
+						return
+					}
+					mu.Lock()
+					if x.Problem == netceptor.ProblemExpiredInTransit && x.FromService == sk.name {
+						got[sk.name+"|"+x.ReceivedFromNode]++
+						n++
+					} else {
+						got[sk.name+"|other:"+x.Problem]++
+					}
+					mu.Unlock()
+					if !idle.Stop() {
+						select {
+						case <-idle.C:
+						default:
+						}
+					}
+					idle.Reset(6 * time.Second)
+					if n == len(budgets) { // all there: a short look for anything reported twice
+						idle.Reset(700 * time.Millisecond)
+					}
+				case <-idle.C:
+					return
+				}
+			}
+		}(sk)
+	}
+	wg.Wait()
+	for _, sk := range socks {
+		close(sk.done)
+		_ = sk.pc.Close()
+	}
+	for k, w := range want {
+		if got[k] == w {
+			res.reported += w
+		} else {
+			res.violations = append(res.violations, fmt.Sprintf("socket|reporting node %s: %d datagrams expired there, the socket's slow consumer (first read 3.5 s later) received %d 'message expired' notifications", k, w, got[k]))
+		}
+	}
+	for k, g := range got {
+		if _, ok := want[k]; !ok {
+			res.violations = append(res.violations, fmt.Sprintf("slow consumer received %d unexpected notification(s) %s", g, k))
+		}
+	}
+	res.detail["expected"] = want
+	res.detail["received"] = got
+	return res
 }
